@@ -237,7 +237,9 @@ func (r *lockRoles) openFact(f ir.Fact) bool {
 			return false
 		}
 		sel, isSel := ex.Tuple.(*ssa.Select)
-		if !isSel || sel.Blocking {
+		// a pure poll of the shutdown channel: one receive case plus default. In a select with further cases another
+		// ready case may be chosen although the channel is closed - that is why the token helpers test again
+		if !isSel || sel.Blocking || len(sel.States) != 1 {
 			return false
 		}
 		doneIdx := int64(-1)
